@@ -346,7 +346,7 @@ def main(argv=None):
         os.makedirs(os.path.join(VERIF, "evidence"), exist_ok=True)
         with open(os.path.join(VERIF, "evidence", f"{pid}.json"), "w") as fh:
             json.dump(ev, fh, indent=1, default=repr)
-    print(f"{pid} tier={args.tier} seed={seed}: {evaluations} cases, {len(hashes)} distinct non-trivial, {violations} violation(s), {wall:.1f}s")
+    print(f"{pid} tier={args.tier} seed={seed}: {cov['evaluations']} cases, {cov['distinct_nontrivial']} distinct non-trivial, {violations} violation(s), {wall:.1f}s")
     return rc
 
 
